@@ -2,7 +2,7 @@
 (* Family "genflags": runs over flag / validator / plan-modifier / injected-field configurations and comment patterns.  Serves C10. *)
 EXTENDS GenShapes, TLC, Json
 CONSTANTS MCDeep, MCLong
-VARIABLES sh, M, obj, tf, dg, pn, pc, hist, viol, aux
+VARIABLES sh, M, Mi, obj, tf, dg, pn, pc, hist, viol, aux
 MCShapes == GenFlagShapes(MCLong)
 MCProps == {"C10"}
 MCScript == <<>>
